@@ -44,7 +44,8 @@ def cases(draw, tier):
             a = IR.dec(tree["a"])
             p = list(draw(st.permutations(list(range(n)))))
             tree = dict(tree, a=gen.enc(a[p]))
-    return {"fn": fn, "tree": tree}
+    # badly scaled inputs: every float payload of the tree multiplied by a power of ten (factorisations are scale covariant)
+    return {"fn": fn, "tree": tree, "scale_exp": draw(st.sampled_from([0, 0, 0, -12, -6, 6, -20]))}
 
 
 def strategy(tier):
@@ -87,10 +88,26 @@ def structure_check(out, site, A, F, name):
         out.fail("structure", site, "bigger_dense", f"{name} holds a dense array of {max_dense(F)} entries > largest input leaf {lim}")
 
 
+def rescale(ir, f):
+    """copy of the IR with every dense / diagonal float payload multiplied by f (f8/c16 leaves only)."""
+    out = {}
+    for k, v in ir.items():
+        if k == "ch":
+            out[k] = [rescale(c, f) for c in v]
+        elif isinstance(v, dict) and "dt" in v and "v" in v and v["dt"] in ("f8", "c16") and ir["k"] in ("dense", "matmat", "lazify", "diag"):
+            out[k] = IR.enc(IR.dec(v) * f)
+        else:
+            out[k] = v
+    return out
+
+
 def check(case, out):
     import cola
     from cola.linalg.decompositions.decompositions import cholesky, plu
     fn, tree = case["fn"], case["tree"]
+    if case.get("scale_exp"):
+        tree = rescale(tree, 10.0 ** case["scale_exp"])
+        out.label("scaled:1e%d" % case["scale_exp"])
     R = IR.denote(tree)
     n = R.shape[0]
     out.label(*TP.tree_labels(tree, R))
@@ -100,7 +117,7 @@ def check(case, out):
     site = f"{fn}:{kind}"
     M = R.M.astype(np.complex128)
     eps = max(IR.tree_eps(tree), oracle.eps_of(R.dtype))
-    tol = 1e3 * eps * max(n, 1) * max(1.0, np.abs(M).max(initial=0))
+    tol = 1e3 * eps * max(n, 1) * (np.abs(M).max(initial=0) if case.get("scale_exp") else max(1.0, np.abs(M).max(initial=0)))
     pivot = False
     if fn == "plu" and tree["k"] in ("dense", "matmat", "lazify"):
         a = np.abs(IR.dec(tree["a"]))
